@@ -259,8 +259,8 @@ Proof.
   destruct (bempty (aget f_recovery_code vals)) eqn:Rc; cbn [negb] in Eq.
   - destruct (c_onetime (e_cfg E)).
     + destruct (beqb (u_totp_last u) (trim_space (aget f_code vals))); [inversion Eq|].
-      apply bind_ok_inv in Eq as (? & ? & _ & Eq).
-      destruct (totp_ok E (u_totp u) (aget f_code vals)) eqn:Tk; cbn [negb] in Eq; inversion Eq; subst.
+      destruct (totp_ok E (u_totp u) (aget f_code vals)) eqn:Tk; cbn [negb] in Eq; [|inversion Eq].
+      apply bind_ok_inv in Eq as (? & ? & _ & Eq). inversion Eq; subst.
       repeat split; auto. discriminate.
     + destruct (totp_ok E (u_totp u) (aget f_code vals)) eqn:Tk; cbn [negb] in Eq; inversion Eq; subst.
       repeat split; auto. discriminate.
